@@ -7,33 +7,15 @@ import (
 	"reflect"
 
 	"github.com/xelaj/mtproto/internal/encoding/tl"
-	"github.com/xelaj/mtproto/telegram"
 )
 
 // ErrSkip: the registry has no Go type that can hold the value. That is a translation defect (C13's business),
 // so the wire-format check skips and counts it instead of reporting it a second time.
 var ErrSkip = errors.New("skip: no Go type can hold this value")
 
-// wrappers by schema name: the documented hand-written request wrappers (not in the registry).
-var wrapperTypes = map[string]reflect.Type{
-	"invokeWithLayer":   reflect.TypeOf(&telegram.InvokeWithLayerParams{}),
-	"initConnection":    reflect.TypeOf(&telegram.InitConnectionParams{}),
-	"invokeWithTakeout": reflect.TypeOf(&telegram.InvokeWithTakeoutParams{}),
-}
-
-// GoType returns the Go type that represents definition d: registered type by id, or a hand-written wrapper by name.
-func (r *Registry) GoType(d *Def) (reflect.Type, bool) {
-	if d.Generic {
-		t, ok := wrapperTypes[d.Name]
-		return t, ok
-	}
-	t, ok := r.ByID[d.ID]
-	return t, ok
-}
-
 // Bridge converts an abstract value into the Go value of the registered type, using positions only: field i of
 // the struct <-> i-th parameter that is not '#'. Struct tags and FlagIndex() are never consulted.
-func (r *Registry) Bridge(v *Val) (reflect.Value, error) {
+func Bridge(r *Registry, v *Val) (reflect.Value, error) {
 	rt, ok := r.GoType(v.Def)
 	if !ok {
 		return reflect.Value{}, fmt.Errorf("%w: %s#%08x not registered", ErrSkip, v.Def.Name, v.Def.ID)
@@ -61,7 +43,7 @@ func (r *Registry) Bridge(v *Val) (reflect.Value, error) {
 		if v.Fields[i] == nil {
 			continue // absent
 		}
-		if err := r.set(f, p.Type, v.Fields[i]); err != nil {
+		if err := bridgeSet(r, f, p.Type, v.Fields[i]); err != nil {
 			return reflect.Value{}, fmt.Errorf("%s.%s: %w", v.Def.Name, p.Name, err)
 		}
 	}
@@ -71,7 +53,7 @@ func (r *Registry) Bridge(v *Val) (reflect.Value, error) {
 	return out, nil
 }
 
-func (r *Registry) set(f reflect.Value, t Type, x any) error {
+func bridgeSet(r *Registry, f reflect.Value, t Type, x any) error {
 	bad := func() error { return fmt.Errorf("%w: Go field of type %v for TL type %s", ErrSkip, f.Type(), t.Kind+t.Name) }
 	switch t.Kind {
 	case "int":
@@ -120,13 +102,13 @@ func (r *Registry) set(f reflect.Value, t Type, x any) error {
 		items := x.([]any)
 		s := reflect.MakeSlice(f.Type(), len(items), len(items))
 		for i, it := range items {
-			if err := r.set(s.Index(i), *t.Elem, it); err != nil {
+			if err := bridgeSet(r, s.Index(i), *t.Elem, it); err != nil {
 				return err
 			}
 		}
 		f.Set(s)
 	case "boxed", "bare", "Object", "!X":
-		gv, err := r.Bridge(x.(*Val))
+		gv, err := Bridge(r, x.(*Val))
 		if err != nil {
 			return err
 		}
